@@ -8,6 +8,7 @@ use embedded_graphics::{
     Pixel,
 };
 use std::collections::HashMap;
+use std::fmt::Write as _;
 use std::panic::{catch_unwind, AssertUnwindSafe};
 
 const SIZE: i32 = 64;
@@ -153,6 +154,11 @@ fn step<C: Mk>(d: &mut MockDisplay<C>, out: &mut Vec<String>, tok: &str) {
         "fc" => d.fill_contiguous(&rc(f[1], f[2], f[3], f[4]), colors::<C>(f[5])).unwrap(),
         "cl" => d.clear(C::mk(u(f[1]))).unwrap(),
         "sp" => d.set_pixel(pt(f[1], f[2]), if f[3] == "n" { None } else { Some(C::mk(u(f[3]))) }),
+        "sps" => {
+            let body = tok.splitn(3, ':').nth(2).unwrap_or("");
+            let l: Vec<Point> = if body.is_empty() { vec![] } else { body.split(';').map(|s| { let g: Vec<&str> = s.split(':').collect(); pt(g[0], g[1]) }).collect() };
+            d.set_pixels(l, if f[1] == "n" { None } else { Some(C::mk(u(f[1]))) })
+        }
         "ao" => d.set_allow_overdraw(f[1] == "1"),
         "ab" => d.set_allow_out_of_bounds_drawing(f[1] == "1"),
         "gp" => out.push(d.get_pixel(pt(f[1], f[2])).map(|c| c.tag().to_string()).unwrap_or_else(|| "none".into())),
@@ -284,8 +290,53 @@ fn p_mock_char<C: Mk>(toks: &[&str]) -> String {
     }
 }
 
+/// the panic message of a failed closure, None when it returned
+fn panic_message(f: impl FnOnce()) -> Option<String> {
+    match catch_unwind(AssertUnwindSafe(f)) {
+        Ok(()) => None,
+        Err(e) => Some(if let Some(s) = e.downcast_ref::<String>() { s.clone() } else if let Some(s) = e.downcast_ref::<&str>() { s.to_string() } else { "?".into() }),
+    }
+}
+
+/// assert_eq / assert_eq_with_message / assert_pattern / assert_pattern_with_message: panic exactly when the 4096 cells
+/// differ, never otherwise; the message shows both displays (and the caller's message)
+fn p_mock_assert<C: Mk>(toks: &[&str]) -> String {
+    let (ta, tb) = split_slash(toks);
+    let (a, ra) = build::<C>(ta);
+    let (mut b, rb) = build::<C>(tb);
+    b.set_allow_overdraw(false);
+    let same = ra.map == rb.map;
+    let mut n = 0;
+    let mut judge = |what: &str, msg: Option<String>, with_message: bool| -> Result<(), String> {
+        match (&msg, same) {
+            (None, true) => {}
+            (Some(m), false) => {
+                if !m.contains(&format!("{:?}", a)) { return Err(format!("FAIL {}: the panic message does not show the display", what)); }
+                if with_message && !m.contains("custom-message-7") { return Err(format!("FAIL {}: the panic message lacks the caller's message", what)); }
+            }
+            (None, false) => return Err(format!("FAIL {} did not panic although the displays differ", what)),
+            (Some(_), true) => return Err(format!("FAIL {} panicked although all cells agree", what)),
+        }
+        n += 1;
+        Ok(())
+    };
+    if let Err(e) = judge("assert_eq", panic_message(|| a.assert_eq(&b)), false) { return e; }
+    if let Err(e) = judge("assert_eq_with_message", panic_message(|| a.assert_eq_with_message(&b, |f| write!(f, "custom-message-7"))), true) { return e; }
+    // the other display as a pattern (possible when all its colours have a character)
+    if rb.map.values().all(|v| doc_raw_to_char::<C>(*v) != '?') {
+        let nrows = rb.map.keys().map(|k| k.1).max().map_or(0, |y| y + 1);
+        let ncols = rb.map.keys().map(|k| k.0).max().map_or(0, |x| x + 1);
+        let rows: Vec<String> = (0..nrows).map(|y| (0..ncols).map(|x| rb.map.get(&(x, y)).map_or(' ', |v| doc_raw_to_char::<C>(*v))).collect()).collect();
+        let refs: Vec<&str> = rows.iter().map(|s| s.as_str()).collect();
+        if let Err(e) = judge("assert_pattern", panic_message(|| a.assert_pattern(&refs)), false) { return e; }
+        if let Err(e) = judge("assert_pattern_with_message", panic_message(|| a.assert_pattern_with_message(&refs, |f| write!(f, "custom-message-7"))), true) { return e; }
+    }
+    format!("OK {}", n)
+}
+
 pub fn run(suite: &str, a: &[&str]) -> Option<String> {
     Some(match suite {
+        "p_mock_assert" => dispatch!(a[0], p_mock_assert, &a[1..]),
         "p_mock_char" => dispatch!(a[0], p_mock_char, &a[1..]),
         "mock_points" => dispatch!(a[0], mock_points, &a[1..]),
         "p_mock_points" => dispatch!(a[0], p_mock_points, &a[1..]),
@@ -427,6 +478,20 @@ fn p_mock_hist<C: Mk>(toks: &[&str]) -> String {
                     Ok(())
                 } else { Err("setpixel") }
             }
+            "sps" => {
+                // set_pixels: point by point, the first point outside panics (the earlier ones stay set)
+                let body = tok.splitn(3, ':').nth(2).unwrap_or("");
+                let mut res = Ok(());
+                if !body.is_empty() {
+                    for s in body.split(';') {
+                        let g: Vec<&str> = s.split(':').collect();
+                        let (x, y) = (g[0].parse::<i64>().unwrap(), g[1].parse::<i64>().unwrap());
+                        if !inside(x, y) { res = Err("setpixel"); break; }
+                        if f[1] == "n" { r.map.remove(&(x as i32, y as i32)); } else { r.map.insert((x as i32, y as i32), u(f[1])); }
+                    }
+                }
+                res
+            }
             "gp" | "aa" | "dump" | "sw" | "dbg" | "mp" => Ok(()),
             _ => {
                 let ws = requested(tok).unwrap();
@@ -455,6 +520,13 @@ fn p_mock_hist<C: Mk>(toks: &[&str]) -> String {
             let mut rs = Ref::default();
             for (&(x, y), &c) in r.map.iter() { rs.map.insert((y, x), c); }
             if let Err(e) = agree(&s, &rs, &[]) { return format!("FAIL swap_xy after op#{}: {}", k, e); }
+        }
+        // Debug prints the documented character of every cell ('?' for a colour without one, ' ' for None), 64 columns,
+        // trailing untouched rows counted
+        if f[0] == "dbg" {
+            let s = match guarded(|| format!("{:?}", d)) { Ok(s) => s, Err(e) => return format!("FAIL Debug panicked after op#{}: {}", k, e) };
+            let want = expected_debug::<C>(&r);
+            if s != want { return format!("FAIL Debug output after op#{} {} expected {}", k, text_out(&s), text_out(&want)); }
         }
         // map applies the function to every touched cell and leaves the others untouched
         if f[0] == "mp" {
@@ -494,6 +566,12 @@ fn build<C: Mk>(toks: &[&str]) -> (MockDisplay<C>, Ref) {
                 let (x, y) = (f[1].parse::<i64>().unwrap(), f[2].parse::<i64>().unwrap());
                 if !inside(x, y) { continue; }
                 if f[3] == "n" { r.map.remove(&(x as i32, y as i32)); } else { r.map.insert((x as i32, y as i32), u(f[3])); }
+            }
+            "sps" => {
+                let body = tok.splitn(3, ':').nth(2).unwrap_or("");
+                let pts: Vec<(i64, i64)> = if body.is_empty() { vec![] } else { body.split(';').map(|s| { let g: Vec<&str> = s.split(':').collect(); (g[0].parse().unwrap(), g[1].parse().unwrap()) }).collect() };
+                if pts.iter().any(|p| !inside(p.0, p.1)) { continue; }
+                for (x, y) in pts { if f[1] == "n" { r.map.remove(&(x as i32, y as i32)); } else { r.map.insert((x as i32, y as i32), u(f[1])); } }
             }
             "gp" | "aa" | "dump" | "sw" | "dbg" | "mp" => continue,
             _ => { r.writes(&requested(tok).unwrap()).unwrap(); }
@@ -560,14 +638,44 @@ fn doc_char_to_raw<C: Mk>(ch: char) -> Option<u32> {
     }
 }
 
+/// inverse of the documented table: the character of a raw value, '?' when it has none
+fn doc_raw_to_char<C: Mk>(v: u32) -> char {
+    for ch in "0123456789ABCDEF.#KRGBYMCW".chars() {
+        if doc_char_to_raw::<C>(ch) == Some(v) {
+            return ch;
+        }
+    }
+    '?'
+}
+
+/// the documented Debug text of a reference display
+fn expected_debug<C: Mk>(r: &Ref) -> String {
+    let last = r.map.keys().map(|k| k.1).max();
+    let mut want = String::from("MockDisplay[\n");
+    let nrows = last.map_or(0, |y| y + 1);
+    for y in 0..nrows {
+        for x in 0..SIZE {
+            want.push(r.map.get(&(x, y)).map_or(' ', |v| doc_raw_to_char::<C>(*v)));
+        }
+        want.push('\n');
+    }
+    if nrows < 64 { want.push_str(&format!("({} empty rows skipped)\n", 64 - nrows)); }
+    want.push_str("]\n");
+    want
+}
+
 /// pattern over the documented character set: from_pattern sets exactly the documented cells, Debug prints the
 /// pattern back (padded to 64 columns, trailing untouched rows counted), and the printed rows parse to an equal display
 fn p_mock_pattern<C: Mk>(toks: &[&str]) -> String {
     let rows = rows_of(toks);
     let refs: Vec<&str> = rows.iter().map(|s| s.as_str()).collect();
     let mut r = Ref::default();
+    // lower-case hex digits are an accepted spelling of the upper-case ones (char::to_digit); Debug prints upper case
+    let hexy = C::NAME == "Gray4" || C::NAME == "Gray8";
+    let canon = |ch: char| if hexy && ('a'..='f').contains(&ch) { ch.to_ascii_uppercase() } else { ch };
     for (y, row) in rows.iter().enumerate() {
         for (x, ch) in row.chars().enumerate() {
+            let ch = canon(ch);
             if ch != ' ' {
                 match doc_char_to_raw::<C>(ch) {
                     Some(v) => { r.map.insert((x as i32, y as i32), v); }
@@ -583,7 +691,7 @@ fn p_mock_pattern<C: Mk>(toks: &[&str]) -> String {
     if let Err(e) = agree(&d, &r, &[]) { return format!("FAIL from_pattern: {}", e); }
     let s = match guarded(|| format!("{:?}", d)) { Ok(s) => s, Err(k) => return format!("FAIL Debug panicked: {}", k) };
     // expected text, written from the documentation of the format
-    let mut want_rows: Vec<String> = rows.iter().map(|row| format!("{:<64}", row)).collect();
+    let mut want_rows: Vec<String> = rows.iter().map(|row| format!("{:<64}", row.chars().map(canon).collect::<String>())).collect();
     while want_rows.last().map_or(false, |l| l.chars().all(|c| c == ' ')) { want_rows.pop(); }
     let mut want = String::from("MockDisplay[\n");
     for l in &want_rows { want.push_str(l); want.push('\n'); }
